@@ -26,6 +26,7 @@ import EsbuildModel.Impl.Shifts
 import EsbuildModel.Impl.Lower2
 import EsbuildModel.Impl.Fold
 import EsbuildModel.Impl.PrecDriver
+import EsbuildModel.Impl.Decoders
 
 open EsbuildModel
 
@@ -60,6 +61,7 @@ def dispatch (kernel : String) (args : List String) : String :=
   | "lower2sem" => Lower2.semDriver args
   | "fold" => Fold.driver args
   | "prec" => Prec.driver args
+  | "decoders" => Decoders.driver args
   | _ => "bad-kernel"
 
 partial def loop (hin hout : IO.FS.Stream) : IO Unit := do
